@@ -3,10 +3,15 @@
 import os
 import sys
 
-if os.environ.get("PYTHONHASHSEED") is None:
+# interpreter variant of this process: "" (default options), "O" (python -O: asserts stripped), "W" (python -b, and
+# every warning attributed to an msmart module is an error - `-W error`, pytest's filterwarnings=error)
+_VARIANT = os.environ.get("VERIF_PYVARIANT", "")
+_FLAGS = {"": [], "O": ["-O"], "W": ["-b"]}.get(_VARIANT, [])
+if os.environ.get("PYTHONHASHSEED") is None or os.environ.get("VERIF_PYVARIANT_ACTIVE", "") != _VARIANT:
     # fixed hash seed: set/dict iteration order inside the library cannot perturb a run
     os.environ["PYTHONHASHSEED"] = "0"
-    os.execv(sys.executable, [sys.executable] + sys.argv)
+    os.environ["VERIF_PYVARIANT_ACTIVE"] = _VARIANT
+    os.execv(sys.executable, [sys.executable, "-B"] + _FLAGS + sys.argv)
 
 sys.dont_write_bytecode = True
 sys.path.insert(0, os.path.dirname(os.path.abspath(__file__)))
